@@ -525,11 +525,15 @@ def _process(cls: t.Type[PaneBase], opts: PaneOptions):
         if '__init__' in cls.__dict__:
             raise TypeError(f"Can't overwrite __init__ function in class {cls.__name__}")
         _make_init(cls, fields)
+    # (must be looked at before `__eq__` is generated: only a user-written `__eq__` makes Python set `__hash__ = None` itself)
+    class_hash = cls.__dict__.get('__hash__', _MISSING)
+    has_explicit_hash = not (class_hash is _MISSING or
+                             (class_hash is None and '__eq__' in cls.__dict__))
     if opts.eq and '__eq__' not in cls.__dict__:
         _make_eq(cls, fields)
     if opts.order and not any(k in cls.__dict__ for k in ('__lt__', '__gt__', '__le__', '__ge__')):
         _make_ord(cls, fields)
-    _maybe_make_hash(cls, fields)
+    _maybe_make_hash(cls, fields, has_explicit_hash)
 
     return cls
 
@@ -664,12 +668,8 @@ def _make_ord(cls: t.Type[PaneBase], fields: t.Sequence[Field]):
     setattr(cls, '__ge__', __ge__)
 
 
-def _maybe_make_hash(cls: t.Type[PaneBase], fields: t.Sequence[Field]):
+def _maybe_make_hash(cls: t.Type[PaneBase], fields: t.Sequence[Field], has_explicit_hash: bool):
     opts = cls.__pane_info__.opts
-
-    class_hash = cls.__dict__.get('__hash__', _MISSING)
-    has_explicit_hash = not (class_hash is _MISSING or
-                             (class_hash is None and '__eq__' in cls.__dict__))
 
     action = _hash_action[(bool(opts.unsafe_hash), bool(opts.eq), bool(opts.frozen), has_explicit_hash)]
     if action is not None:
